@@ -281,3 +281,63 @@ func H_C20_deep() {
 func H_C20_top_slice() {
 	vC20Check("top-level pointer to struct with slice of structs", &struct{ X []vJLeaf }{X: []vJLeaf{{N: "a", K: vPickInt("K")}}})
 }
+
+// nested structs whose fields are all unexported, between exported siblings, through every wrapper
+type vJHiddenMid struct {
+	A int
+	H vJHidden
+	N int
+	P *vJHidden
+	S []vJHidden
+	M map[string]vJHidden
+	Z string
+}
+
+func H_C20_hidden_nested() {
+	o := vJHiddenMid{A: vPickInt("A"), H: vJHidden{a: 1}, N: 2, Z: vJSONText("Z", 1)}
+	if vndBool("P") {
+		o.P = &vJHidden{b: 2}
+	}
+	if vndBool("S") {
+		o.S = []vJHidden{{a: 1}, {}}
+	}
+	if vndBool("M") {
+		o.M = map[string]vJHidden{"k": {a: 3}}
+	}
+	vC20Check("nested structs without exported fields between exported siblings", o)
+}
+
+// long collections (the catalogue's other shapes stop at 2 elements)
+type vJLong struct {
+	L []int
+	P []*vJLeaf
+	E []vJEmpty
+	N vJLeaf
+	Z []string
+}
+
+func H_C20_long() {
+	n := []int{3, 70, 130}[vndChoice("n", 3)]
+	o := &vJLong{N: vJLeaf{N: "after", K: 1}}
+	for i := 0; i < n; i++ {
+		o.L = append(o.L, i)
+		o.P = append(o.P, nil)
+		o.E = append(o.E, vJEmpty{})
+		o.Z = append(o.Z, "s")
+	}
+	vC20Check("long slices of scalars, nil pointers and empty structs", o)
+}
+
+type vJDeepNest struct {
+	V int
+	C *vJDeepNest
+}
+
+func H_C20_deep_chain() {
+	d := []int{1, 20, 70}[vndChoice("depth", 3)]
+	var o *vJDeepNest
+	for i := 0; i < d; i++ {
+		o = &vJDeepNest{V: i, C: o}
+	}
+	vC20Check("a chain of nested pointers", o)
+}
